@@ -30,6 +30,8 @@ func main() {
 		cmdPlay(args)
 	case "gen":
 		cmdGen(args)
+	case "sched":
+		cmdSched(args)
 	default:
 		if f, ok := extraCmds[cmd]; ok {
 			f(args)
@@ -147,4 +149,47 @@ func cmdPlay(args []string) {
 	}
 	tw.close()
 	fmt.Printf("played %d behaviours, %d trace lines\n", n, tw.lines)
+}
+
+// cmdSched: replay TLC-generated schedules of the server lifecycle on real goroutines.
+func cmdSched(args []string) {
+	fs := flag.NewFlagSet("sched", flag.ExitOnError)
+	in := fs.String("in", "", "schedules (ndjson)")
+	out := fs.String("out", "trace.ndjson", "abstract trace (ndjson)")
+	fs.Int64("seed", 1, "unused")
+	progress := fs.String("progress", "", "progress file")
+	fs.Int("seedindex", 0, "unused")
+	fs.String("proj", "", "unused")
+	fs.Parse(args)
+	behs := readBehaviours(*in)
+	tw := newTraceWriter(*out)
+	var pf *os.File
+	if *progress != "" {
+		pf, _ = os.Create(*progress)
+	}
+	bad := 0
+	for i, b := range behs {
+		if pf != nil {
+			pf.Seek(0, 0)
+			fmt.Fprintf(pf, "%-12d\n", i)
+		}
+		evs, err := run.PlaySched(b)
+		if err != nil {
+			die("schedule %d: %v", i, err)
+		}
+		tw.writeExec(evs, i)
+		// executions that went wrong are slow (timeouts): a few of them are enough for a verdict
+		for _, e := range evs {
+			if e["k"] == "stuck" || e["k"] == "panic" || (e["k"] == "final" && !(e["allret"] == true && e["served"] == true)) {
+				bad++
+				break
+			}
+		}
+		if bad >= 3 {
+			fmt.Printf("stopping after %d troubled schedules\n", bad)
+			break
+		}
+	}
+	tw.close()
+	fmt.Printf("replayed %d schedules, %d trace lines\n", len(behs), tw.lines)
 }
